@@ -314,6 +314,11 @@ def run(ctx):
     g0 = items(3)
     cases += [('LL', [[h0, h0], [h0], [h0, h0]]), ('LL', [g0, g0]), ('LL', [g0, [], g0, g0]), ('LL', [items(5, dup=True), items(4, dup=True)]),
               ('P', rng.bytes_(32), 0, [h0, h0]), ('P', rng.bytes_(32), 7, items(6, dup=True)), ('P', h0, 1, [h0, h0, h0])]
+    # long lists (a block can carry thousands of operations): lengths beyond any small-list special path, not powers of two
+    for n in ((1025, 1026, 1500, 2049, 3000) if quick else (1025, 1026, 1027, 1500, 2047, 2049, 3000, 4097, 5000, 10000)):
+        cases.append(('L', items(n)))
+    cases.append(('P', rng.bytes_(32), 3, items(1026)))
+    cases.append(('LL', [items(1030), items(2), items(1500)]))
     if not quick:
         for n in range(0, 301):
             cases.append(('L', items(n, dup=True)))
@@ -352,7 +357,7 @@ def run(ctx):
     # and a random sample of the other lengths (the oracle and the toy-hash stream always see every case)
     if quick:
         big = [i for i, c in enumerate(cases) if c[0] == 'L' and len(c[1]) > 64]
-        keep = set(rng.sample(big, 12)) | {i for i in big if len(cases[i][1]) in (127, 128, 129, 255, 256, 257, 300)}
+        keep = set(rng.sample(big, 12)) | {i for i in big if len(cases[i][1]) in (127, 128, 129, 255, 256, 257, 300, 1026)}
         e2e = [i for i, c in enumerate(cases) if c[0] != 'L' or len(c[1]) <= 64 or i in keep]
     else:
         e2e = list(range(len(cases)))
